@@ -59,8 +59,11 @@ func effectRuleAST(r *Run, rule string) {
 				case ssa.CallInstruction:
 					// in-place mutators applied to a container loaded from the tree
 					pkg, name := staticCalleeName(x)
-					if pkg == "sort" || pkg == "slices" {
+					if (pkg == "sort" || pkg == "slices") && !stdReadOnly(pkg, name) {
 						for _, a := range x.Common().Args {
+							if !isMutableContainer(a.Type()) {
+								continue // a string or a number handed over by value
+							}
 							if bb := addrBase(a, 0); strings.HasPrefix(bb, "ast:") {
 								base, what = bb, "call of "+pkg+"."+name+" on"
 							}
@@ -516,6 +519,12 @@ func globalStoreRule(r *Run, rule string) {
 					if cc.IsInvoke() {
 						args = append([]ssa.Value{cc.Value}, args...)
 					}
+					if stdReadOnly(pkg, name) {
+						break // the standard library's searches and comparisons only read what they are handed
+					}
+					if pkg == "maps" && name == "Copy" && len(args) == 2 {
+						args = args[:1] // only the destination is written
+					}
 					for _, a := range args {
 						switch a.Type().Underlying().(type) {
 						case *types.Pointer, *types.Map, *types.Slice, *types.Chan:
@@ -716,4 +725,40 @@ func programFieldRule(r *Run, rule string) {
 			return true
 		})
 	}
+}
+
+// isMutableContainer: a value through which the callee could write to what the caller sees.
+func isMutableContainer(t types.Type) bool {
+	switch t.Underlying().(type) {
+	case *types.Pointer, *types.Map, *types.Slice, *types.Chan, *types.Interface, *types.Signature, *types.Struct, *types.Array:
+		return true
+	}
+	return false
+}
+
+// stdReadOnly: functions of the standard library that only read the containers they are handed
+// (searches, comparisons, measures, copies into a NEW container).
+func stdReadOnly(pkg, name string) bool {
+	switch pkg {
+	case "slices":
+		switch name {
+		case "Contains", "ContainsFunc", "Index", "IndexFunc", "Equal", "EqualFunc", "Compare", "CompareFunc",
+			"BinarySearch", "BinarySearchFunc", "IsSorted", "IsSortedFunc", "Max", "MaxFunc", "Min", "MinFunc", "Clone", "Concat":
+			return true
+		}
+	case "sort":
+		switch name {
+		case "Search", "SearchInts", "SearchStrings", "SearchFloat64s", "IsSorted", "SliceIsSorted", "StringsAreSorted", "IntsAreSorted", "Float64sAreSorted":
+			return true
+		}
+	case "maps":
+		switch name {
+		case "Clone", "Equal", "EqualFunc", "Keys", "Values", "All":
+			return true
+		}
+	case "strings", "unicode/utf8", "unicode", "strconv":
+		// package functions (methods of Builder, Reader, ... write to their receiver; Append* / Encode* write to their first operand)
+		return !strings.HasPrefix(name, "(") && !strings.HasPrefix(name, "Append") && !strings.HasPrefix(name, "Encode")
+	}
+	return false
 }
